@@ -6,7 +6,7 @@ package main
 //     string; until now every name in every world was 0-18 bytes long.  The name
 //     worlds below register, look up (Named, SetDecorationNamed, auto.New /
 //     auto.Wrap), overwrite and list names of every length 0..130 (thorough:
-//     0..300) and around every power of two up to 2^12 (thorough 2^16), over four
+//     0..300) and around every power of two up to 2^12 (thorough 2^14), over four
 //     alphabets (one repeated letter - so that the names of a world are prefixes
 //     of each other -, arbitrary bytes incl. 0x00 and 0xFF, ASCII words, UTF-8
 //     cut anywhere), together with the names that merely resemble them at the
@@ -385,7 +385,7 @@ func c17NameLengths(all, maxPow int) []int {
 func c17NameWorlds(r *RNG, tier string, add func(C17Spec)) {
 	all, maxPow, per := 130, 12, 10
 	if tier == "thorough" {
-		all, maxPow, per = 300, 16, 10
+		all, maxPow, per = 300, 14, 10
 	}
 	lengths := c17NameLengths(all, maxPow)
 	// neighbouring lengths go to different worlds; a world mixes short and long names
